@@ -1,4 +1,5 @@
 import Lemmas.RateLimiterLive
+import Lemmas.RateLimiterBounds
 /-! # C16 — the rate limiter never grants more than any applicable cap and never hangs
 
 Property theorems only.  The model is `Model/RateLimiter.lean`: the transition relation `RL.Step` (every critical
@@ -75,6 +76,28 @@ theorem granted_le_min_cap_of_chain (c : Nat) (s : S) (h : Reachable c s) (hz : 
     · have := each y List.mem_cons_self
       exact Nat.le_min.mpr ⟨own, this⟩
     · exact fun x hx => each x (List.mem_cons_of_mem _ hx)
+
+/-- **no overflow** (bridge to Go's `int`; no bound such as 2^62 is assumed on the capacities): `s.capHi` is the largest
+    capacity ever passed to `New` / `SetCap`.  Every capacity, every `used`, every `last` and every queued amount stays
+    ≤ `capHi`; so when the capacities are Go `int`s (`capHi ≤ maxInt`, a fact of the type) all of them are in
+    `[0, MaxInt]`: each `capacity - used` the code computes lies in `[-MaxInt, MaxInt]` and is exact, and `used += amount`
+    is executed only after `amount ≤ capacity - used` was established, so it cannot wrap.  The model's unbounded
+    naturals and the code's `int`s therefore describe the same values, up to and including `MaxInt`. -/
+theorem int_arithmetic_exact (c : Nat) (s : S) (h : Reachable c s) (hty : s.capHi ≤ maxInt) :
+    (∀ x, s.cap x ≤ maxInt) ∧ (∀ x, s.used x ≤ maxInt) ∧ (∀ x, s.last x ≤ maxInt) ∧
+    (∀ r ∈ s.waiting, r.amt ≤ maxInt) ∧ (s.setCaps = 0 → ∀ x, s.used x ≤ s.cap x) := by
+  obtain ⟨hc, hu, hl, hw⟩ := bounded h
+  exact ⟨fun x => Nat.le_trans (hc x) hty, fun x => Nat.le_trans (hu x) hty, fun x => Nat.le_trans (hl x) hty,
+         fun r hr => Nat.le_trans (hw r hr) hty, capInv h⟩
+
+/-- a grant is charged only where it fits: after `Use` grants `amt` to `l`, every limiter on `l`'s chain has
+    `used ≤ capacity` for the capacities then in force (also with `SetCap` calls before) -/
+theorem grant_within_caps_in_force (s : S) (l amt : Nat) (hf : fits s.cap s.used (s.chain l) amt = true) :
+    ∀ x ∈ s.chain l, (doUseGrant s l amt).used x ≤ s.cap x := by
+  intro x hx
+  show charge s.used (s.chain l) amt x ≤ s.cap x
+  simp only [charge, hx, if_true]
+  exact (fits_iff _ _ _ _).mp hf x hx
 
 /-- **LastUsed**: for a limiter that is still linked into the tree, `LastUsed()` is the amount granted to it and its
     descendants in the previous period (0 before the first tick) -/
